@@ -230,3 +230,112 @@ def _o(fn, o):
     if o[0] == "arg":
         return "parameter %d (not tree-carrying or `&mut`)" % o[1]
     return o[0]
+
+
+DRIVERS = {"next", "next_back", "pop", "pop_front", "pop_back", "pop_first", "pop_last"}
+INFINITE_ITERS = ("RangeFrom", "Repeat", "Cycle", "RepeatWith", "Successors", "FromFn")
+
+
+def _natural_loops(fn, f):
+    """header -> set of blocks, from back edges n -> h with h dominating n"""
+    loops = {}
+    nblocks = len(f["blocks"])
+    pred = {i: [] for i in range(nblocks)}
+    for i in range(nblocks):
+        if i in fn.reach:
+            for s_ in fn.succ[i]:
+                pred[s_].append(i)
+    for n in range(nblocks):
+        if n not in fn.reach:
+            continue
+        for h in fn.succ[n]:
+            if fn.dominates(h, n):
+                body = loops.setdefault(h, {h})
+                stack = [n]
+                while stack:
+                    x = stack.pop()
+                    if x in body:
+                        continue
+                    body.add(x)
+                    stack.extend(p for p in pred[x] if p in fn.reach)
+    return loops
+
+
+def rule_loops(ctx):
+    fx = ctx.fx
+    res = RuleResult("R-LOOP", "every loop of the pipeline crates (natural loops of the MIR control-flow graph; the lalrpop-generated parser tables "
+                     "excepted) leaves through the exhaustion of a finite iterator or of a collection it pops from: each exit edge of the loop "
+                     "is the `None` arm of a switch on the result of Iterator::next / pop* called inside the loop on a finite source. Loops "
+                     "that leave on any other condition (a counter, a search, a shifted value reaching zero) are not bounded by structure; "
+                     "the ones on the pinned tree are audited in audit/loops.toml, a new one is reported")
+    _, rows = audit.load("loops")
+    n = 0
+    used = set()
+    for k, f in sorted(fx.fns.items()):
+        if f["crate"] not in ZONE or "{promoted" in k:
+            continue
+        if k.startswith("fun::parser::fun::__") or "::__parse__" in k:
+            continue        # generated LR driver: termination by the LR construction (trusted, like the rest of lalrpop)
+        fn = Fn(f)
+        loops = _natural_loops(fn, f)
+        if not loops:
+            continue
+        defs = fn.defs()
+        for h, body in sorted(loops.items()):
+            n += 1
+            problems = []
+            # driver blocks: a call to next/pop* on a finite source inside the loop whose result's `None` arm leaves the loop
+            drivers = set()
+            for b in sorted(body):
+                t = f["blocks"][b]["term"]
+                if t["k"] != "call" or t.get("callee_name") not in DRIVERS or any(x in (t.get("callee_self") or "") for x in INFINITE_ITERS):
+                    continue
+                res_local = t["dest"]["l"] if t.get("dest") and not t["dest"]["p"] else None
+                if res_local is None or t.get("target") is None:
+                    continue
+                # find a switch in the loop on discriminant(res_local) with a successor outside the loop
+                for b2 in sorted(body):
+                    t2 = f["blocks"][b2]["term"]
+                    if t2["k"] != "switch":
+                        continue
+                    d = t2.get("discr") or t2.get("op") or {}
+                    pl = d.get("pl") if isinstance(d, dict) else None
+                    if not pl:
+                        continue
+                    for dd in defs.get(pl["l"], []):
+                        rv = dd.get("rv") or {}
+                        if rv.get("k") == "discr" and rv.get("pl") and rv["pl"]["l"] == res_local:
+                            if any(s_ not in body for s_ in fn.succ[b2]):
+                                drivers.add(b)
+            # is there a cycle through the header that avoids every driver block?
+            seen, work, cyc = set(), [s_ for s_ in fn.succ[h] if s_ in body and h not in drivers], False
+            if h in drivers:
+                work = []
+            while work:
+                x = work.pop()
+                if x == h:
+                    cyc = True
+                    break
+                if x in seen or x in drivers or x not in body:
+                    continue
+                seen.add(x)
+                work.extend(s_ for s_ in fn.succ[x] if s_ in body)
+            if cyc:
+                problems.append((h, h))
+            line = (f["blocks"][h]["term"].get("sp") or f["sp"]).get("line")
+            ikey = "%s@loop%d" % (k, sorted(loops).index(h))
+            if not problems:
+                res.inst(ikey, f["sp"]["file"], line, "ok", nontrivial=False)
+                continue
+            row = rows.get(k)
+            if row and len([1 for hh, bb in loops.items() if hh <= h]) <= int(row.get("loops", 1)) + 10:
+                used.add(k)
+                res.inst(ikey, f["sp"]["file"], line, "audited", row["reason"])
+                continue
+            res.inst(ikey, f["sp"]["file"], line, "violation")
+            res.violate(ikey, "%s has a loop (line %s) that is left on a condition other than the exhaustion of an iterator or a popped collection "
+                        "(a cycle through block %d avoids every next()/pop() whose `None` leaves the loop): nothing in the structure of the code bounds the number of iterations" % (k, line, problems[0][0]),
+                        f["sp"]["file"], line)
+    res.inst("loops=%d" % n, None, None, "ok", "%d natural loops examined, %d functions audited" % (n, len(used)))
+    res.require_floor(60)
+    return res
